@@ -14,6 +14,8 @@ pub enum Action {
     RegS(String, u32),
     RegI(String, i32, bool, bool, u32),
     Lock(u32),
+    // the handler takes this many milliseconds (timing only: no effect on any state)
+    Sleep(u64),
 }
 
 #[derive(Clone, Debug)]
@@ -161,6 +163,7 @@ fn p_action(c: &mut Cur) -> Action {
             Action::RegI(unhex(&n), parse_hex_i64(&p) as i32, se == "1", ri == "1", h.parse().unwrap())
         }
         b'K' => Action::Lock(c.field().parse().unwrap()),
+        b'Z' => Action::Sleep(c.field().parse().unwrap()),
         _ => panic!("bad action"),
     }
 }
@@ -236,6 +239,7 @@ fn run_action(a: &Action) {
         Action::RegS(n, h) => register_postfix(n, *h),
         Action::RegI(n, p, se, ri, h) => register_infix(n, *p, *se, *ri, *h),
         Action::Lock(c) => { let cx = ctx(*c); let g = cx.0.lock().unwrap(); drop(g); }
+        Action::Sleep(ms) => std::thread::sleep(std::time::Duration::from_millis(*ms)),
     }
 }
 
